@@ -404,6 +404,30 @@ def run(ck, prog, ctx):
         ck.ob("PAIR", nm + "/takes-both", taken == {"K0", "K1"}, "%s retires %s from `sets` (expected key.0 and key.1)" % (nm, " and ".join("key." + k[1:] for k in sorted(taken)) or "nothing"), where=host.where())
     ck.floor("TABLE", "retain predicates", n_ret, 1, soft=True)
 
+    # ---- the caller's distances are stored as they are: no clamp / rescaling between the callback's result and the matrix
+    ck.rule("ASIS", "a value stored in the distance matrix that comes from a caller-supplied function (the distance callback, the linkage update function) is stored unchanged")
+    from engines import steps_after_call, FLOAT_CHANGE
+    pvm0 = Prov(prog, inline=False, mutflow=False)
+    n_asis = 0
+    for hb_ in prog.production():
+        if hb_.kind != "AssocFn" or not hb_.id.startswith(LINK):
+            continue
+        k_host = 0
+        for bi, t in hb_.calls():
+            if not (t.callee.res or "").endswith("DistanceMatrix::insert") or len(t.args) < 3 or t.args[2].place is None:
+                continue
+
+            def from_callback(ct, hb_=hb_):
+                return ct.callee.res is None and (ct.callee.trait or "").rsplit("::", 1)[-1] in ("Fn", "FnMut", "FnOnce") and ct.args and bool(params_of(pvm0.of_operand(hb_, ct.args[0]), hb_.id))
+            st_ = steps_after_call(hb_, pvm0, from_callback, start=t.args[2].place.local)
+            if st_ is None:
+                continue
+            n_asis += 1
+            k_host += 1
+            bad = [x for x in st_ if x in FLOAT_CHANGE]
+            ck.ob("ASIS", "stored-distance/%s/%d" % (hb_.short.rsplit("::", 1)[-1], k_host - 1), not bad, "%s stores the value of the caller's function %s" % (hb_.short, "as it is" if not bad else "after `%s`: distances outside what that step lets through are altered, so the closest pair and the reported merge distances change" % "`, `".join(bad)), where=hb_.where(t.line))
+    ck.floor("ASIS", "matrix inserts fed by a caller-supplied function", n_asis, 2, soft=True)
+
     # ---- index of the new cluster: distances to it are stored under (live index, index of the pushed set)
     ck.rule("FIELD", "the key of a new distance is (live index, index the merged set is pushed at): Vec::len taken before the push, or len - 1 after it (DESIGN 3.9)")
     pvm = Prov(prog, inline=False, mutflow=False)
